@@ -130,6 +130,10 @@ func (tx *Tx) Rollback() error {
 		}
 	}
 
+	if tx.target == nil {
+		// XA mode: the branch is driven by XA commands, there is no local transaction behind this Tx
+		return nil
+	}
 	return tx.target.Rollback()
 }
 
@@ -140,6 +144,9 @@ func (tx *Tx) init() error {
 
 // commitOnLocal
 func (tx *Tx) commitOnLocal() error {
+	if tx.target == nil {
+		return nil
+	}
 	return tx.target.Commit()
 }
 
